@@ -58,7 +58,7 @@ def run(chk, prog):
     chk.inst("no-new-unsigned-subtraction", "metrics.rs", not extra,
              detail="unsigned subtraction on a counter outside mark_gc_freed / mark_gc_untraced: %s" % extra,
              sample={"unsigned_subtraction_sites": sorted(set(subs))})
-    chk.floor("unsigned-subtraction-sites", len(set(subs)), 2)
+    chk.extra["unsigned_subtraction_sites"] = sorted(set(subs))
 
 
 def _all_paths_hit(body, start, targets, stop, limit=400):
